@@ -25,6 +25,7 @@ first offset a broker reports is not above a record that still exists -/
 def Good (log : List Rec) (s : RR) : REv → Prop
   | .data d off' oc => GoodData log s.connOff d off' ∧ oc ≠ .desync
   | .cutAfter d => GoodCut log s.connOff d
+  | .ctxCanceled d => GoodCut log s.connOff d
   | .initOk first last => 0 ≤ first ∧ first ≤ last ∧ ∀ r ∈ log, first ≤ r.1
   | .kerr 1 (some (first, _)) => ∀ r ∈ log, first ≤ r.1
   | _ => True
@@ -266,7 +267,11 @@ theorem rinv_step (cfg : RCfg) {log : List Rec} {s : RR} (e : REv) (h : RInv log
           · split <;> exact hsame _ rfl rfl rfl (fun _ => rfl)
         · exact hsame _ rfl rfl rfl (fun _ => rfl)
       | ioErr => exact rinv_of_eq h rfl rfl rfl (fun x => by simp [toTop] at x)
-      | ctxCanceled => exact rinv_of_eq h rfl rfl rfl (fun x => by simp at x)
+      | ctxCanceled d =>
+        obtain ⟨gs, gi, gc⟩ := hg
+        obtain ⟨hstn, _, _⟩ := h.conn hp
+        obtain ⟨c1, c2, _, _, _⟩ := push_core h hp d gs gi gc
+        exact ⟨c1, by intro h0; exact absurd h0 hstn, c2, by intro x; simp at x⟩
       | unknownCodec => exact rinv_of_eq h rfl rfl rfl (fun x => by simp [toTop] at x)
       | _ => exact h
 
